@@ -47,7 +47,11 @@ def build_spec(case, name="main", files_extra=None):
         commits.append({"parents": c["parents"], "msg": c["msg"], "ts": c["ts"], "files": files})
     tags = []
     for n, (idx, bname) in enumerate(case["tags"]):
-        tags.append(["build_%d_%s_success" % (case["tag_nums"][n], tag_branch_str(bname)), idx])
+        if (case.get("legacy_tags") or 0) and (case["tag_nums"][n] + case["legacy_tags"]) % 2:
+            # the project's own tag format next to the standard one (the repository class extends parse_buildtag)
+            tags.append(["ok/%s/%d" % (tag_branch_str(bname), case["tag_nums"][n]), idx])
+        else:
+            tags.append(["build_%d_%s_success" % (case["tag_nums"][n], tag_branch_str(bname)), idx])
     return {"name": name, "commits": commits, "branches": dict(case["branches"]), "tags": tags}
 
 
@@ -298,7 +302,7 @@ def st_case(draw, max_commits=10):
         seen_labels.add((mm, num))
         tag_nums.append(num)
     return {"commits": commits, "branches": branches, "tags": tags, "tag_nums": tag_nums, "search": search,
-            "render": draw(st.integers(0, 3)) == 0}
+            "render": draw(st.integers(0, 3)) == 0, "legacy_tags": draw(st.sampled_from([0, 0, 1, 2]))}
 
 
 def eval_two_reports(case):
